@@ -19,7 +19,8 @@ import c04 as H
 PROP = 'C03'
 TSIZE = H.TSIZE
 LEAN_FILES = ['PnVerif/Spec/SpecDecode.lean', 'PnVerif/Model/Header.lean', 'PnVerif/Model/HeaderText.lean', 'PnVerif/Model/Layout.lean',
-              'PnVerif/Lemmas/HeaderLemmas.lean', 'PnVerif/Lemmas/LayoutLemmas.lean', 'PnVerif/Props/C03.lean', 'Driver/C03.lean']
+              'PnVerif/Lemmas/HeaderLemmas.lean', 'PnVerif/Lemmas/Window.lean', 'PnVerif/Lemmas/Decode.lean', 'PnVerif/Lemmas/Encode.lean',
+              'PnVerif/Lemmas/LayoutLemmas.lean', 'PnVerif/Lemmas/PostPass.lean', 'PnVerif/Props/C04.lean', 'PnVerif/Props/C03.lean', 'Driver/C03.lean']
 hx, unhx = H.hx, H.unhx
 SAFE_REST = H.FIRST + '._-+@'
 
@@ -308,6 +309,7 @@ def gen_scenario(rng, lean, path, kind, feats):
             args = (rng.choice(HMIN), rng.choice(VALIGN), rng.choice(VMIN), rng.choice(RALIGN))
             line = 'enddef4 %d %d %d %d' % args
             feats.add('enddef4')
+        m.last_args = args
         err, q = m.layout(lean, args)
         if err:
             return 'model rejects the layout: %s for %s' % (err, q[:3000])
@@ -347,7 +349,11 @@ def gen_scenario(rng, lean, path, kind, feats):
     # the header must be in the file right after enddef (write_NC): snapshot before any data
     if m.rehdr(lean):
         return None, 'ENCL failed'
-    ops.append(('snap ' + path, dict(kind='snap', point='enddef', **m.snapshot_expect())))
+    # alignment the application asked for (documented precedence: hints, then ncmpi__enddef arguments, then defaults)
+    a = m.last_args
+    ha = env[0] or env[1] or a[1] or 512
+    ra = env[2] or a[3] or 4
+    ops.append(('snap ' + path, dict(kind='snap', point='enddef', fresh_align=((ha + 3) // 4 * 4, (ra + 3) // 4 * 4), **m.snapshot_expect())))
     write_data()
     e = promised('sync-after-write')
     if e:
@@ -422,13 +428,14 @@ def oracle(fb, answer, exp):
         return ('not-decodable', 'unparsable decoder answer')
     if t[k + 1] != 'true':
         return ('bad-references', 'dimension references / record dimension use invalid')
+    consumed = int(t[k + 2])
     s = exp['schema']
     if H.logical(dict(d, vars=[dict(v, begin=0) for v in d['vars']])) != H.logical(dict(s, vars=[dict(v, begin=0) for v in s['vars']])):
         return ('schema', 'decoded schema differs from the defined one')
     if any(x['size'] == 0 for x in s['dims']) and d['numrecs'] != s['numrecs']:
         return ('numrecs', 'numrecs in the file %d, records written %d' % (d['numrecs'], s['numrecs']))
     # layout rules on the begins stored in the file
-    hlen = exp['xsz']
+    hlen = consumed
 
     def isrec(v):
         return bool(v['dimids']) and d['dims'][v['dimids'][0]]['size'] == 0
@@ -465,6 +472,27 @@ def oracle(fb, answer, exp):
     recsize = sum(vlen(v) for v in recs)
     if len(recs) == 1:
         recsize = nel(recs[0]) * TSIZE[recs[0]['type']]
+    # the library's own reports (last inquiry before the snapshot) against the file
+    rep = exp.get('reported')
+    if rep:
+        if rep[0] != consumed:
+            return ('report-header-size', 'ncmpi_inq_header_size %d, header in the file is %d bytes' % (rep[0], consumed))
+        if rep[5:] != [v['begin'] for v in d['vars']]:
+            return ('report-varoffset', 'ncmpi_inq_varoffset %s, begins in the file %s' % (rep[5:], [v['begin'] for v in d['vars']]))
+        if recs and rep[2] != recsize:
+            return ('report-recsize', 'ncmpi_inq_recsize %d, record size by the specification %d' % (rep[2], recsize))
+        if d['vars'] and rep[1] != min(v['begin'] for v in d['vars']):
+            return ('report-header-extent', 'ncmpi_inq_header_extent %d, first variable begins at %d' % (rep[1], min(v['begin'] for v in d['vars'])))
+        if rep[1] < consumed:
+            return ('report-header-extent', 'ncmpi_inq_header_extent %d smaller than the header (%d bytes)' % (rep[1], consumed))
+    # requested alignments (first enddef of a new file only)
+    al = exp.get('fresh_align')
+    if al:
+        ha, ra = al
+        if fixed and fixed[0]['begin'] % ha:
+            return ('alignment', 'first fixed-size variable at %d, requested alignment %d' % (fixed[0]['begin'], ha))
+        if recs and recs[0]['begin'] % ra:
+            return ('alignment', 'record section at %d, requested alignment %d' % (recs[0]['begin'], ra))
     # data at the offsets the FILE states
     for k, v in enumerate(d['vars']):
         dd = exp['data'].get(k)
@@ -523,7 +551,7 @@ def run_check(tier, seed):
             return V.finish()
         api = cc(tree, [os.path.join(VERIF, 'harness/c03_api.c')], os.path.join(wd, 'c03_api'))
         lean = LeanProc(drv)
-        nsc = 40 if tier == 'quick' else 300
+        nsc = 150 if tier == 'quick' else 1200
         scen = []
         feats_all = {}
         for i in range(nsc):
@@ -598,7 +626,9 @@ def run_check(tier, seed):
                     V.broken_tie('harness c03_api crashed or timed out', dict(ranks=n, rc=rc, done=done, total=total, stderr=(so + se)[-600:]))
                 return V.finish()
             pos = 0
+            last_inq = None
             for si, sc in enumerate(scen):
+                last_inq = None
                 for oi, (line, exp) in enumerate(sc['ops']):
                     for r in range(n):
                         got = outs[r][pos].split()
@@ -615,6 +645,8 @@ def run_check(tier, seed):
                             tie_diffs.append(dict(where=where, got=got[:4], expected_id=exp['id']))
                         elif exp['kind'] == 'inq':
                             vals = [int(x) for x in got[2:]]
+                            if r == 0:
+                                last_inq = vals
                             if vals != exp['values']:
                                 names = ['header_size', 'header_extent', 'recsize', 'numrecs', 'nvars']
                                 k = next((i for i in range(min(len(vals), len(exp['values']))) if vals[i] != exp['values'][i]), -1)
@@ -622,6 +654,7 @@ def run_check(tier, seed):
                                 tie_diffs.append(dict(stream='layout', where=where, field=what, implementation=vals, model=exp['values'], query=str(exp.get('query'))[:3000]))
                         elif exp['kind'] == 'snap' and r == 0:
                             fb = unhx(got[3])
+                            exp = dict(exp, reported=last_inq)
                             for sig, detail in check_snapshot(fb, exp, spec_q, where):
                                 tie_diffs.append(dict(stream='file-' + sig, where=where, point=exp['point'], detail=detail))
                     pos += 1
